@@ -118,8 +118,8 @@ func rootIdent(e ast.Expr) string {
 
 func (t *tr) selector(e ast.Expr) (string, bool) {
 	r := rootIdent(e)
-	if r == "" || !t.params[r] {
-		return "", false
+	if r == "" || !t.params[r] || (t.localObj != nil && t.localObj[r]) {
+		return "", false // (observations of a local object depend on its current value: see localMethod)
 	}
 	m, ok := mangle(e)
 	if !ok {
@@ -135,8 +135,8 @@ func (t *tr) selector(e ast.Expr) (string, bool) {
 // selectorTyped registers a mangled selector parameter with an explicit Lean type
 func (t *tr) selectorTyped(e ast.Expr, suffix, leanTy string) (string, bool) {
 	r := rootIdent(e)
-	if r == "" || !t.params[r] {
-		return "", false
+	if r == "" || !t.params[r] || (t.localObj != nil && t.localObj[r]) {
+		return "", false // (observations of a local object depend on its current value: see localMethod)
 	}
 	m, ok := mangle(e)
 	if !ok {
@@ -449,6 +449,13 @@ func (t *tr) expr(e ast.Expr) string {
 				}
 			}
 		}
+		if m, recv, ok := t.localMethod(v); ok {
+			// `x.M(args)` on a local object variable x (represented by its value word): an uninterpreted
+			// function of the current value of x and the arguments
+			margs := append([]string{recv}, t.methodArgs(v.Args)...)
+			t.registerMethod(m, len(margs))
+			return "(" + m + " " + strings.Join(margs, " ") + ")"
+		}
 		// selector call without arguments on a parameter: a field-like observation
 		if len(v.Args) == 0 {
 			if m, ok := t.selector(v); ok {
@@ -459,15 +466,9 @@ func (t *tr) expr(e ast.Expr) string {
 		for _, a := range v.Args {
 			args = append(args, t.argExpr(a))
 		}
-		if m, recv, ok := t.localMethod(v); ok {
-			// `x.M(args)` on a local object variable x (represented by its value word): an uninterpreted
-			// function of the current value of x and the arguments
-			margs := append([]string{recv}, t.methodArgs(v.Args)...)
-			t.registerMethod(m, len(margs))
-			return "(" + m + " " + strings.Join(margs, " ") + ")"
-		}
 		if sel, ok := v.Fun.(*ast.SelectorExpr); ok && len(v.Args) > 0 {
-			if r := rootIdent(sel); r != "" && t.params[r] && !isPkgName(r) {
+			// (only for object parameters / the receiver: a method of a local variable depends on its current value)
+			if r := rootIdent(sel); r != "" && t.params[r] && !isPkgName(r) && t.types[r] == "object" {
 				var tys []string
 				for _, a := range v.Args {
 					if t.typeOf(a) == "int" {
